@@ -163,7 +163,7 @@ Lemma impl_break : forall l, Impl (QBreak l).
 Proof.
   intros l. impl_intro. simpl in Hc. destruct (lookup l (ce_lbls ce)) as [y|] eqn:Ex; [|discriminate].
   inversion Hc; subst cq nv' sn'. uncons Hat A1. uncons Hat A2. uncons Hat A3.
-  destruct HE as [Hv Hl]. destruct (Hl _ _ Ex) as (a & id & Ha & Hk & Hnth & Hid).
+  destruct HE as (Hv & Hl & Hgh). destruct (Hl _ _ Ex) as (a & id & Ha & Hk & Hnth & Hid).
   cbn [Den.den1 fst snd].
   eapply G_end with (vs3 := vs) (n3 := n) (g3 := g).
   - subst c; simpl. one st_pop. one st_load. one st_break. constructor.
@@ -950,7 +950,7 @@ Proof.
       * inversion Hk; subst y. rewrite Hcur in Hik. inversion Hik; subst k. rewrite Hlab in Hid. inversion Hid; subst id.
         exists None, vs4, n4, g4. split; [|split; [exact Ch4'|split; [exact Le4|split; [reflexivity|exact HP4]]]].
         eapply steps_trans; [exact St4|]. one st_popfork. eapply steps_step; [eapply bt_label; eauto|]. cbv beta iota. rewrite Nat.eqb_refl. apply steps_refl.
-      * destruct E4 as [_ El4]. destruct (El4 _ _ Hk) as (a' & id' & Hia & _ & Hid' & Hlt). rewrite Hik in Hia. inversion Hia; subst a'.
+      * destruct E4 as (_ & El4 & _). destruct (El4 _ _ Hk) as (a' & id' & Hia & _ & Hid' & Hlt). rewrite Hik in Hia. inversion Hia; subst a'.
         rewrite Hid in Hid'. inversion Hid'; subst id'.
         exists (Some (VE (EB id))), vs4, n4, g4. split; [eapply steps_trans; [exact St4|apply Htr; simpl; lia]|].
         split; [exact Ch4'|]. split; [exact Le4|]. split; [|exact HP4]. simpl. exists y, k, id. auto.
@@ -1856,49 +1856,34 @@ Qed.
 
 (* ---- calls: closures (function definitions called through pushpc / callpc) and user-defined functions ---- *)
 
-(* entering a function at its opscope with the locals (callpc, index) = (rpc, current scope): the callee runs in a
-   new frame above the current offset; opret pops the frame, continues after the call and, when no fork created
-   since the frame was pushed is pending, gives its variables back.  The callee's environment ce must be valid in
-   the caller's scope chain (its slots belong to scopes older than the callee's) *)
-Lemma G_call : forall m q, Lemmas.Impl nt code m q -> forall sc cur base, frameOK sc cur base ->
-  forall ce pe idf cb nvc s0 s1, ce_lt ce idf = true -> at_ pe (Iscope idf nvc 0) ->
-  comp q ce idf (S pe) 0 s0 = Some (cb, nvc, s1) -> code_at (S pe) (cb ++ [Iret]) ->
-  forall cx rho v (P : list sv -> nat -> gx -> Prop) vs n o g rpc,
+(* entering a function at its opscope with the locals (callpc, index) = (rpc, idx): the callee runs in a new frame
+   above the current offset, linked to the captured scope idx; opret pops the frame, continues after the call and,
+   when no fork created since the frame was pushed is pending, gives its variables back.  Whatever the callee's
+   code does is given as a generator towards its opret *)
+Lemma G_enter : forall sc cur base, frameOK sc cur base ->
+  forall idx pe idf nvc na pr, at_ pe (Iscope idf nvc na) -> at_ pr Iret ->
+  forall cx cec (P : list sv -> nat -> gx -> Prop) stk vs n o g rpc,
     g_sc cx = sc -> g_pc cx = S rpc -> g_off cx = o ->
-    (forall vs' fin e, encR sc ce vs' fin e -> encR sc (g_ce cx) vs' fin e) ->
-    (forall i, o <= i -> g_own cx i) -> (forall i, kept sc ce i -> g_keep cx i) -> (forall i, g_keep0 cx i -> g_keep cx i) ->
-    g_koff cx <= o -> envOK sc ce rho vs (g_n0 cx) o -> g_n0 cx <= n -> o <= length vs -> g_ctr cx <= ctr g ->
-    creg g = (Some rpc, sc) ->
-    (forall a b m0 x m' x', P a m0 x -> chg (fun i => o <= i) a b -> cle m0 x m' x' -> P b m' x') ->
-    (forall a b m0 x m' x', P a m0 x -> keepK0 cx a b -> cle m0 x m' x' -> P b m' x') ->
-    P vs n g ->
-    G cx (fst (den1 nt (call_of nt m) q rho v)) (Tend cx (snd (den1 nt (call_of nt m) q rho v)) P)
-      (N sc pe (SV v :: g_st cx) (g_base cx) vs n o g).
+    (forall i, o <= i -> g_own cx i) -> g_koff cx <= o -> o <= length vs -> g_ctr cx <= ctr g ->
+    creg g = (Some rpc, idx) ->
+    let sc' := Frame idf o rpc (ctr g) sc (outer_of sc idf idx) :: sc in
+    let vs' := grow vs (o + nvc) in
+    let g1 := {| ctr := S (ctr g); creg := creg g |} in
+    let K' := fun i => g_keep cx i \/ o <= i < o + nvc in
+    let c' := ctx_of sc' pr (g_st cx) (g_base cx) (o + 0) (o + nvc) (o + nvc) (o + nvc) K' (g_keep0 cx) cec (g_n0 cx) (ctr g1) in
+    (forall vs0 fin e, encR sc' cec vs0 fin e -> encR sc (g_ce cx) vs0 fin e) ->
+    forall ws fin, G c' ws (Tend c' fin P) (N sc' (S pe) stk (g_base cx) vs' n (o + nvc) g1) ->
+    G cx ws (Tend cx fin P) (N sc pe stk (g_base cx) vs n o g).
 Proof.
-  intros m q IH sc cur base Hfr ce pe idf cb nvc s0 s1 Hce A1 Ec Hat cx rho v P vs n o g rpc Hsc Hpc Hoff Henc Hown HK2 HK0 Hko HE Hn Hlen Hct Hcr HP1 HP2 HP.
-  destruct (code_at_app _ _ _ _ Hat) as [Hatc Hat2]. uncons Hat2 A2.
-  set (pr := S pe + length cb) in *.
-  set (Fr := Frame idf o rpc (ctr g) sc (outer_of sc idf sc)).
-  set (sc' := Fr :: sc).
-  set (vs' := grow vs (o + nvc)).
-  set (g1 := {| ctr := S (ctr g); creg := creg g |}).
+  intros sc cur base Hfr idx pe idf nvc na pr A1 A2 cx cec P stk vs n o g rpc Hsc Hpc Hoff Hown Hko Hlen Hct Hcr sc' vs' g1 K' c' Henc ws0 fin0 HG0.
   assert (Hne : sc <> []) by (eapply frameOK_ne; eauto).
-  assert (Hps : pushed sc idf sc') by (exists o, rpc, (ctr g), sc, sc; reflexivity).
-  assert (St0 : steps (N sc pe (SV v :: g_st cx) (g_base cx) vs n o g) (N sc' (S pe) (SV v :: g_st cx) (g_base cx) vs' n (o + nvc) g1)).
+  assert (St0 : steps (N sc pe stk (g_base cx) vs n o g) (N sc' (S pe) stk (g_base cx) vs' n (o + nvc) g1)).
   { eapply steps_step; [eapply st_scope; [exact A1|exact Hcr]|]. apply steps_refl. }
-  assert (Hfr' : frameOK sc' idf o) by (exists rpc, (ctr g), sc, (outer_of sc idf sc), sc; reflexivity).
-  assert (HE' : envOK sc' ce rho vs' (g_n0 cx) (o + 0)).
-  { rewrite Nat.add_0_r. eapply envOK_pushed; eauto. intros a Ha. apply grow_nth. lia. }
-  assert (Hl' : o + nvc <= length vs') by apply grow_len.
-  set (K' := fun i => g_keep cx i \/ o <= i < o + nvc).
-  pose proof (IH sc' idf o Hfr' ce (S pe) 0 s0 cb nvc s1 Ec Hatc rho v (g_st cx) (g_base cx) vs' n (g_n0 cx) (o + nvc) (o + nvc) g1 K' (g_keep0 cx) P
-                HE' Hn (le_n _) (le_n _) Hl') as HC. cbv zeta in HC. fold pr in HC.
-  set (c' := ctx_of sc' pr (g_st cx) (g_base cx) (o + 0) (o + nvc) (o + nvc) (o + nvc) K' (g_keep0 cx) ce (g_n0 cx) (ctr g1)) in *.
   assert (Hoc : forall i, g_own c' i -> g_own cx i) by (simpl; intros i Hi; apply Hown; lia).
   assert (Tc : forall fin s, Tend c' fin P s -> Tend cx fin P s).
   { intros fin s HT. tend_inv HT as (e & vs4 & n4 & g4 & St4 & Ch4 & Le4 & HE4 & HP4). apply Tend_of. exists e, vs4, n4, g4.
     split; [exact St4|]. split; [exact (chg_mono _ _ _ _ Hoc Ch4)|]. split; [exact Le4|]. split; [|exact HP4].
-    rewrite Hsc. apply Henc. simpl in HE4. eapply encR_pushed; eauto. }
+    rewrite Hsc. apply Henc. exact HE4. }
   assert (Conv : forall ws fin s, G c' ws (Tend c' fin P) s -> G cx ws (Tend cx fin P) s).
   { induction ws as [|w ws IHws]; intros fin s HG.
     - destruct HG as (s' & St & Ch & Le & HT). exists s'. split; [exact St|]. split; [exact (chg_mono _ _ _ _ Hoc Ch)|].
@@ -1929,90 +1914,473 @@ Proof.
   eapply G_pre; [exact St0| |unfold g1; cl|].
   { simpl. split; [apply grow_len_le|]. intros i Hi. symmetry. apply grow_nth.
     destruct (Nat.lt_ge_cases i (length vs)) as [Hl|Hl]; [exact Hl|]. exfalso. apply Hi, Hown. lia. }
-  apply Conv. apply HC.
-  - intros i Hi. unfold K'. right. lia.
-  - intros i Hi. unfold K'. left. apply HK2. eapply kept_pushed; eauto.
-  - intros i Hi. unfold K'. left. apply HK0. exact Hi.
-  - split.
-    + intros a b m0 x m' x' Hp C Hm. eapply HP1; [exact Hp| |exact Hm]. eapply chg_mono; [|exact C]. simpl; intros; lia.
-    + intros a b m0 x m' x' Hp C Hm. eapply HP2; [exact Hp|exact C|exact Hm].
-  - eapply HP1; [exact HP| |unfold g1; cl]. split; [apply grow_len_le|]. intros i Hi. symmetry. apply grow_nth. lia.
+  apply Conv. exact HG0.
 Qed.
+
+(* the callee is the code of a query (a closure, a parameterless function): its environment ce must be valid in
+   the captured scope idx (its slots belong to scopes older than the callee's) *)
+Lemma G_call : forall m q, Lemmas.Impl nt code m q -> forall sc cur base, frameOK sc cur base ->
+  forall idx ce pe idf cb nvc s0 s1, ce_lt ce idf = true -> at_ pe (Iscope idf nvc 0) ->
+  comp q ce idf (S pe) 0 s0 = Some (cb, nvc, s1) -> code_at (S pe) (cb ++ [Iret]) ->
+  forall cx rho v (P : list sv -> nat -> gx -> Prop) vs n o g rpc,
+    g_sc cx = sc -> g_pc cx = S rpc -> g_off cx = o ->
+    (forall vs' fin e, encR idx ce vs' fin e -> encR sc (g_ce cx) vs' fin e) ->
+    (forall i, o <= i -> g_own cx i) -> (forall i, kept idx ce i -> g_keep cx i) -> (forall i, g_keep0 cx i -> g_keep cx i) ->
+    g_koff cx <= o -> envOK idx ce rho vs (g_n0 cx) o -> g_n0 cx <= n -> o <= length vs -> g_ctr cx <= ctr g ->
+    creg g = (Some rpc, idx) ->
+    (forall a b m0 x m' x', P a m0 x -> chg (fun i => o <= i) a b -> cle m0 x m' x' -> P b m' x') ->
+    (forall a b m0 x m' x', P a m0 x -> keepK0 cx a b -> cle m0 x m' x' -> P b m' x') ->
+    P vs n g ->
+    G cx (fst (den1 nt (call_of nt m) q rho v)) (Tend cx (snd (den1 nt (call_of nt m) q rho v)) P)
+      (N sc pe (SV v :: g_st cx) (g_base cx) vs n o g).
+Proof.
+  intros m q IH sc cur base Hfr idx ce pe idf cb nvc s0 s1 Hce A1 Ec Hat cx rho v P vs n o g rpc Hsc Hpc Hoff Henc Hown HK2 HK0 Hko HE Hn Hlen Hct Hcr HP1 HP2 HP.
+  destruct (code_at_app _ _ _ _ Hat) as [Hatc Hat2]. uncons Hat2 A2.
+  set (pr := S pe + length cb) in *.
+  set (sc' := Frame idf o rpc (ctr g) sc (outer_of sc idf idx) :: sc).
+  set (vs' := grow vs (o + nvc)).
+  set (g1 := {| ctr := S (ctr g); creg := creg g |}).
+  assert (Hps : pushed idx idf sc') by (exists o, rpc, (ctr g), sc, sc; reflexivity).
+  apply (G_enter sc cur base Hfr idx pe idf nvc 0 pr A1 A2 cx ce P (SV v :: g_st cx) vs n o g rpc Hsc Hpc Hoff Hown Hko Hlen Hct Hcr).
+  - intros vs0 fin e HEn. apply Henc. eapply encR_pushed; eauto.
+  - fold sc' vs' g1.
+    assert (Hfr' : frameOK sc' idf o) by (exists rpc, (ctr g), sc, (outer_of sc idf idx), sc; reflexivity).
+    assert (HE' : envOK sc' ce rho vs' (g_n0 cx) (o + 0)).
+    { rewrite Nat.add_0_r. eapply envOK_pushed; eauto. intros a Ha. apply grow_nth. lia. }
+    assert (Hl' : o + nvc <= length vs') by apply grow_len.
+    apply (IH sc' idf o Hfr' ce (S pe) 0 s0 cb nvc s1 Ec Hatc rho v (g_st cx) (g_base cx) vs' n (g_n0 cx) (o + nvc) (o + nvc) g1
+             (fun i => g_keep cx i \/ o <= i < o + nvc) (g_keep0 cx) P HE' Hn (le_n _) (le_n _) Hl').
+    + intros i Hi. right. lia.
+    + intros i Hi. left. apply HK2. eapply kept_pushed; eauto.
+    + intros i Hi. left. apply HK0. exact Hi.
+    + split.
+      * intros a b m0 x m' x' Hp C Hm. eapply HP1; [exact Hp| |exact Hm]. eapply chg_mono; [|exact C]. simpl; intros; lia.
+      * intros a b m0 x m' x' Hp C Hm. eapply HP2; [exact Hp|exact C|exact Hm].
+    + eapply HP1; [exact HP| |unfold g1; cl]. split; [apply grow_len_le|]. intros i Hi. symmetry. apply grow_nth. lia.
+Qed.
+
+(* ---- function definitions and calls ---- *)
+Lemma ce_lt_unfold : forall ce sn, ce_lt ce sn = true <->
+  (forall e, In e (ce_env ce) -> match snd e with CV y | CP y => fst y < sn | CF _ _ => True end) /\
+  (forall e, In e (ce_lbls ce) -> fst (snd e) < sn).
+Proof.
+  intros ce sn. unfold ce_lt. rewrite andb_true_iff, !forallb_forall. split; intros [H1 H2]; split; intros e He.
+  - specialize (H1 e He). destruct (snd e); auto; apply Nat.ltb_lt; auto.
+  - apply Nat.ltb_lt. auto.
+  - specialize (H1 e He). destruct (snd e); auto; apply Nat.ltb_lt; auto.
+  - apply Nat.ltb_lt. auto.
+Qed.
+Lemma ce_lt_mono : forall ce sn sn', ce_lt ce sn = true -> sn <= sn' -> ce_lt ce sn' = true.
+Proof.
+  intros ce sn sn' H Hle. apply ce_lt_unfold in H. apply ce_lt_unfold. destruct H as [H1 H2]. split; intros e He.
+  - specialize (H1 e He). destruct (snd e); auto; lia.
+  - specialize (H2 e He). lia.
+Qed.
+Lemma ce_lt_fun : forall ce f p n sn G, ce_lt ce sn = true ->
+  ce_lt {| ce_env := (f, CF p n) :: ce_env ce; ce_lbls := []; ce_ghost := G |} sn = true.
+Proof.
+  intros ce f p n sn G H. apply ce_lt_unfold in H. apply ce_lt_unfold. destruct H as [H1 _]. split; simpl.
+  - intros e [<-|He]; simpl; auto. apply H1; auto.
+  - intros e [].
+Qed.
+Lemma ce_lt_nolbl : forall ce sn G, ce_lt ce sn = true -> ce_lt {| ce_env := ce_env ce; ce_lbls := []; ce_ghost := G |} sn = true.
+Proof.
+  intros ce sn G H. apply ce_lt_unfold in H. apply ce_lt_unfold. destruct H as [H1 _]. split; simpl; auto. intros e [].
+Qed.
+
+Lemma nth_error_prefix : forall {A} (l r : list A) i x, nth_error l i = Some x -> nth_error (l ++ r) i = Some x.
+Proof. intros A l r i x H. rewrite nth_error_app1; auto. apply nth_error_Some. congruence. Qed.
 
 (* a function definition: jump over it; in the rest of the query the function is visible *)
-Lemma ce_lt_add_fun : forall ce f p sn, ce_lt ce sn = true ->
-  ce_lt {| ce_env := (f, CF p) :: ce_env ce; ce_lbls := [] |} sn = true.
-Proof.
-  intros ce f p sn H. unfold ce_lt in *. apply andb_true_iff in H. destruct H as [H _]. simpl. rewrite H. reflexivity.
-Qed.
-
 Lemma impl_def : forall f ps body rest, Impl rest -> Impl (QDef f ps body rest).
 Proof.
-  intros f ps body rest IHr. impl_intro. destruct ps as [|p0 ps]; [|simpl in Hc; discriminate].
-  destruct (comp_def_inv _ _ _ _ _ _ _ _ _ _ _ Hc) as (Hlt & Hce & cb & nvb & s1 & cr & Eb & Er & ->). clear Hc.
-  uncons Hat A0. uncons Hat A1. destruct (code_at_app _ _ _ _ Hat) as [Hatb Hat2]. uncons Hat2 A2. rename Hat2 into Hatr.
-  set (l := pc + 2 + length cb + 1) in *.
-  replace (S (S (S pc) + length cb)) with l in Hatr by (unfold l; lia).
-  assert (Epc : pc + length (Ijump l :: Iscope sn nvb 0 :: cb ++ Iret :: cr) = l + length cr).
-  { simpl. rewrite app_length. simpl. unfold l. lia. }
+  intros f ps body rest IHr. impl_intro.
+  destruct (comp_def_inv _ _ _ _ _ _ _ _ _ _ _ _ Hc) as (Hlt & Hce & Hpv & cb & nvb & s1 & cr & Eb & Er & ->). cbv zeta in Eb, Er. clear Hc.
+  set (pre := prelude sn ps) in *.
+  set (l := pc + 2 + length pre + length cb + 1) in *.
+  uncons Hat A0. uncons Hat A1.
+  assert (Hatf : forall i x, nth_error (pre ++ cb ++ [Iret]) i = Some x -> nth_error code (S pc + 1 + i) = Some x).
+  { intros i x Hi. replace (S pc + 1 + i) with (S (S pc) + i) by lia. apply Hat.
+    replace (pre ++ cb ++ Iret :: cr) with ((pre ++ cb ++ [Iret]) ++ cr) by (rewrite <- !app_assoc; reflexivity).
+    apply nth_error_prefix. exact Hi. }
+  assert (Hatr : code_at l cr).
+  { intros i x Hi. replace (l + i) with (S (S pc) + (length pre + (length cb + S i))) by (unfold l; lia). apply Hat.
+    rewrite nth_error_app2 by lia. replace (length pre + (length cb + S i) - length pre) with (length cb + S i) by lia.
+    rewrite nth_error_app2 by lia. replace (length cb + S i - length cb) with (S i) by lia. exact Hi. }
+  assert (Epc : pc + length (Ijump l :: Iscope sn nvb (length ps) :: pre ++ cb ++ Iret :: cr) = l + length cr).
+  { simpl. rewrite !app_length. simpl. unfold l. lia. }
   subst c. rewrite Epc.
   cbn [Den.den1].
   eapply G_pre; [one st_jump; apply steps_refl|apply chg_refl|cl|].
-  refine (G_sub nt code (ctx_of sc (l + length cr) st fk (base + nv) (base + nv') o ko K K0 (add_fun ce f (S pc)) n0 (ctr g))
+  refine (G_sub nt code (ctx_of sc (l + length cr) st fk (base + nv) (base + nv') o ko K K0 (add_fun ce f (S pc) (length ps)) n0 (ctr g))
             (ctx_of sc (l + length cr) st fk (base + nv) (base + nv') o ko K K0 ce n0 (ctr g)) _ _
             eq_refl eq_refl eq_refl eq_refl (fun _ H => H) (fun _ _ _ H => H) (fun _ _ H => H) (le_n _) (le_n _) (le_n _) _ _ _
-            (IHr sc cur base Hfr (add_fun ce f (S pc)) l nv s1 cr nv' sn' Er Hatr ((f, BF body) :: rho) v st fk vs n n0 o ko g K K0 P _ Hn Hko Hoo Hlen HK1 _ HK0 _ HP)).
+            (IHr sc cur base Hfr (add_fun ce f (S pc) (length ps)) l nv s1 cr nv' sn' Er Hatr ((f, BF ps body) :: rho) v st fk vs n n0 o ko g K K0 P _ Hn Hko Hoo Hlen HK1 _ HK0 _ HP)).
   - intros s0. apply Tend_sub; auto.
   - apply envOK_add_fun; [exact HE|].
-    exists sn, nvb, cb, (S sn), s1. split; [exact A1|]. split.
-    + replace (S pc + 1) with (pc + 2) by lia. exact Eb.
-    + split; [|apply ce_lt_add_fun; exact Hce].
-      intros i x Hi. replace (S pc + 1 + i) with (S (S pc) + i) by lia.
-      destruct (Nat.lt_ge_cases i (length cb)) as [Hl|Hl].
-      * rewrite nth_error_app1 in Hi by exact Hl. apply Hatb. exact Hi.
-      * rewrite nth_error_app2 in Hi by exact Hl. destruct (i - length cb) as [|[|?]] eqn:Ei; simpl in Hi; try discriminate.
-        inversion Hi; subst x. replace (S (S pc) + i) with (S (S pc) + length cb) by lia. exact A2.
+    exists sn, nvb, cb, (S sn), s1. split; [exact A1|]. split; [|split; [exact Hatf|split; [apply ce_lt_fun; exact Hce|exact Hpv]]].
+    intros G. fold pre. replace (S pc + 1 + length pre) with (pc + 2 + length pre) by lia.
+    rewrite <- Eb. apply comp_ghost; reflexivity.
   - intros i Hi. apply HK2. eapply kept_add_fun; eauto.
   - split; auto.
 Qed.
 
-(* a call of a user-defined function with one unit of fuel less: opcall pc enters the function's opscope with
-   callpc = the pc of the call and index = the current scope; the body is the function's own code, compiled in the
-   part of the environment that starts at the function's entry *)
 Lemma suffix_In : forall {A} (pre l : list A) x, In x l -> In x (pre ++ l).
 Proof. intros. apply in_or_app. right; auto. Qed.
 
+(* the arguments of a call: every block is jumped over and its closure (entry pc, current scope) pushed; the
+   closure of the first argument ends on top *)
+Lemma args_run : forall (C : query -> nat -> nat -> res),
+  (forall a s p cb nvc s1, C a s p = Some (cb, nvc, s1) -> s <= s1) ->
+  forall l p sn cas p' s2, comp_args C l p sn = Some (cas, p', s2) -> code_at p cas ->
+  exists pcs, length pcs = length l /\ p' = p + length cas /\ sn <= s2 /\
+    (forall sc st fk vs n o g, steps (N sc p st fk vs n o g) (N sc p' (map (fun q => SPc (S q) sc) pcs ++ st) fk vs n o g)) /\
+    Forall2 (fun a q => exists id cb nvc s1, sn <= id /\ at_ (S q) (Iscope id nvc 0) /\ C a id q = Some (cb, nvc, s1) /\
+                                            code_at (S (S q)) (cb ++ [Iret])) l pcs.
+Proof.
+  intros C HC. induction l as [|a r IH]; intros p sn cas p' s2 H Hat; simpl in H.
+  - inversion H; subst. exists []. simpl. split; [auto|]. split; [lia|]. split; [lia|]. split; [intros; apply steps_refl|constructor].
+  - destruct (comp_args C r p sn) as [[[cr p1] s1']|] eqn:Er; [|discriminate].
+    destruct (C a s1' p1) as [[[cb nvc] s3]|] eqn:Ea; [|discriminate]. inversion H; subst. clear H.
+    destruct (code_at_app _ _ _ _ Hat) as [Hatr Hatb].
+    destruct (IH _ _ _ _ _ Er Hatr) as (pcs & Hlen & -> & Hsn & Hst & HF).
+    uncons Hatb B0. uncons Hatb B1. destruct (code_at_app _ _ _ _ Hatb) as [Hatc Hat2]. uncons Hat2 B2. uncons Hat2 B3.
+    exists ((p + length cr) :: pcs). simpl. split; [lia|]. split; [rewrite !app_length; simpl; rewrite app_length; simpl; lia|].
+    split; [apply HC in Ea; lia|]. split.
+    + intros sc st fk vs n o g. eapply steps_trans; [apply Hst|]. one st_jump.
+      replace (p + length cr + 2 + length cb + 1) with (S (S (S (p + length cr)) + length cb)) by lia.
+      one st_pushpc.
+      match goal with |- Mach.steps _ _ (Mach.N _ ?a _ _ _ _ _ _) (Mach.N _ ?b _ _ _ _ _ _) => replace b with a; [apply steps_refl|] end.
+      repeat (rewrite app_length; simpl). lia.
+    + constructor.
+      * exists s1', cb, nvc, s2. split; [exact Hsn|]. split; [exact B1|]. split; [exact Ea|].
+        intros i x Hi. destruct (Nat.lt_ge_cases i (length cb)) as [Hl|Hl].
+        -- rewrite nth_error_app1 in Hi by exact Hl. apply Hatc. exact Hi.
+        -- rewrite nth_error_app2 in Hi by exact Hl. destruct (i - length cb) as [|[|?]] eqn:Ei; simpl in Hi; try discriminate.
+           inversion Hi; subst x. replace (S (S (p + length cr)) + i) with (S (S (p + length cr)) + length cb) by lia. exact B2.
+      * exact HF.
+Qed.
+
+(* the prelude of a function with parameters stores the closures found on the stack in the slots 1..n of its frame *)
+Lemma stores_run : forall sc' idf o, frameOK sc' idf o ->
+  forall xs j pcx st fk vsA n oo g, (forall i, i < length xs -> at_ (pcx + i) (Istore (idf, j + i))) -> o + j + length xs <= length vsA ->
+  exists vsB, steps (N sc' pcx (xs ++ st) fk vsA n oo g) (N sc' (pcx + length xs) st fk vsB n oo g) /\
+    length vsB = length vsA /\
+    (forall i x, nth_error xs i = Some x -> nth_error vsB (o + j + i) = Some x) /\
+    (forall k, k < o + j \/ o + j + length xs <= k -> nth_error vsB k = nth_error vsA k).
+Proof.
+  intros sc' idf o Hfr. pose proof (frameOK_cur _ _ _ Hfr) as Hcur.
+  induction xs as [|x r IH]; intros j pcx st fk vsA n oo g Hat Hlen; simpl in *.
+  - exists vsA. rewrite Nat.add_0_r. split; [apply steps_refl|]. split; [auto|]. split; [intros [|i] y Hy; discriminate|auto].
+  - destruct (update_some vsA (o + j) x) as [vs1 U]; [lia|]. destruct (update_spec _ _ _ _ U) as (UL & UN & UO).
+    destruct (IH (S j) (S pcx) st fk vs1 n oo g) as (vsB & St & LB & HB1 & HB2).
+    + intros i Hi. replace (S pcx + i) with (pcx + S i) by lia. replace (S j + i) with (j + S i) by lia. apply Hat. lia.
+    + lia.
+    + exists vsB. split.
+      * eapply steps_step; [eapply st_store; [|apply Hcur|exact U]|].
+        { pose proof (Hat 0 ltac:(lia)) as H0. rewrite !Nat.add_0_r in H0. exact H0. }
+        replace (pcx + S (length r)) with (S pcx + length r) by lia. exact St.
+      * split; [lia|]. split.
+        -- intros [|i] y Hy; simpl in Hy.
+           ++ inversion Hy; subst y. rewrite Nat.add_0_r. rewrite HB2 by lia. exact UN.
+           ++ replace (o + j + S i) with (o + S j + i) by lia. apply HB1. exact Hy.
+        -- intros k Hk. rewrite HB2 by lia. apply UO. lia.
+Qed.
+
+Lemma no_pv_params : forall ps i, no_pv ps = true -> pv_params ps i = [].
+Proof.
+  induction ps as [|[g|x] r IH]; intros i H; simpl in *; auto. discriminate.
+Qed.
+Lemma pf_env_len : forall sn ps i, no_pv ps = true -> length (pf_env sn ps i) = length ps.
+Proof.
+  induction ps as [|[g|x] r IH]; intros i H; simpl in *; auto; [|discriminate]. rewrite app_length, IH by auto. simpl. lia.
+Qed.
+
+(* the environment of the parameters: closures of the arguments, whose own environment is the caller's *)
+Lemma envOKl_params : forall G sc' vs lim sc cur base cel rho lim_a idf o,
+  top_frame sc cur base -> frameOK sc' idf o -> lim_a <= lim ->
+  envOKl code (ce_ghost {| ce_env := cel; ce_lbls := []; ce_ghost := G |}) sc vs lim_a cel rho ->
+  (forall i, kept sc {| ce_env := cel; ce_lbls := []; ce_ghost := G |} i -> G i /\ i < lim_a) ->
+  forall ps args pcs i cr rr, no_pv ps = true -> length ps = length args ->
+  Forall2 (fun a q => funOK code (S q) [] a cel) args pcs ->
+  (forall k q, nth_error pcs k = Some q -> nth_error vs (o + S (i + k)) = Some (SPc (S q) sc)) ->
+  o + S (i + length ps) <= lim ->
+  envOKl code G sc' vs lim cr rr ->
+  envOKl code G sc' vs lim (pf_env idf ps i ++ cr) (pf_binds ps args rho ++ rr).
+Proof.
+  intros G sc' vs lim sc cur base cel rho lim_a idf o Htop Hfr' Hla HEa Hka.
+  pose proof (frameOK_cur _ _ _ Hfr') as Hcur'.
+  induction ps as [|[g|x] ps IH]; intros args pcs i cr rr Hpv Hlen HF Hnth Hlim Hr; simpl in *; try discriminate.
+  - destruct args; [exact Hr|discriminate].
+  - destruct args as [|a args]; [discriminate|]. inversion HF; subst. rename H1 into Hf.
+    rewrite <- !app_assoc. simpl.
+    apply (IH args l' (S i)); auto.
+    + intros k q Hq. replace (S i + k) with (i + S k) by lia. apply Hnth. exact Hq.
+    + lia.
+    + apply (EO_par code G sc' vs lim g (idf, S i) a rho cr rr (o + S i) (S y) sc cel cur base lim_a G); auto.
+      * lia.
+      * replace (o + S i) with (o + S (i + 0)) by lia. apply Hnth. reflexivity.
+Qed.
+
+Lemma bindps_nopv : forall (ev : query -> result) (k : venv -> result) ps args env,
+  no_pv ps = true -> bindps ev k ps args env = k env.
+Proof.
+  induction ps as [|[g|x] ps IH]; intros args env H; simpl in *; [destruct args; reflexivity| |discriminate].
+  destruct args as [|a args]; [reflexivity|]. apply IH. exact H.
+Qed.
+
+Lemma envOKl_ghost : forall (G G' : nat -> Prop) sc vs lim cel rho, (forall i, G i -> G' i) ->
+  envOKl code G sc vs lim cel rho -> envOKl code G' sc vs lim cel rho.
+Proof.
+  intros G G' sc vs lim cel rho HG H. induction H.
+  - constructor.
+  - constructor; auto.
+  - constructor; auto.
+  - apply (EO_par code G' sc vs lim g y a rho_a cr rr addr p idx cel_a cur_a base_a lim_a Ga); auto.
+    intros i Hi. destruct (H6 i Hi). auto.
+Qed.
+
+Lemma envOKl_suffix_kept : forall sc pre cel G i,
+  kept sc {| ce_env := cel; ce_lbls := []; ce_ghost := G |} i -> kept sc {| ce_env := pre ++ cel; ce_lbls := []; ce_ghost := G |} i.
+Proof.
+  intros sc pre cel G i [(x & y & Hx & Hi)|[(l0 & y & Hx & Hi)|Hg]]; simpl in *.
+  - left. exists x, y. split; [|exact Hi]. destruct Hx as [Hx|Hx]; [left|right]; apply suffix_In; exact Hx.
+  - discriminate.
+  - right. right. exact Hg.
+Qed.
+
+Lemma pf_env_In : forall sn ps i x y,
+  (In (x, CV y) (pf_env sn ps i) -> False) /\
+  (In (x, CP y) (pf_env sn ps i) -> exists j, y = (sn, S j) /\ i <= j < i + length ps).
+Proof.
+  induction ps as [|[g|z] ps IH]; intros i x y; simpl; split; intros H; try contradiction.
+  - apply in_app_or in H. destruct H as [H|[H|[]]]; [apply (proj1 (IH (S i) x y) H)|discriminate].
+  - apply in_app_or in H. destruct H as [H|[H|[]]].
+    + destruct (proj2 (IH (S i) x y) H) as (j & -> & Hj). exists j. split; [auto|lia].
+    + inversion H; subst. exists i. split; [auto|lia].
+  - apply (proj1 (IH (S i) x y) H).
+  - destruct (proj2 (IH (S i) x y) H) as (j & -> & Hj). exists j. split; [auto|lia].
+Qed.
+
+Lemma prelude_at : forall idf p0 ps pp, no_pv (p0 :: ps) = true -> code_at pp (prelude idf (p0 :: ps)) ->
+  at_ pp (Istore (idf, 0)) /\ (forall i, i < S (length ps) -> at_ (S pp + i) (Istore (idf, 1 + i))) /\
+  at_ (S pp + S (length ps)) (Iload (idf, 0)) /\ length (prelude idf (p0 :: ps)) = S (S (S (length ps))).
+Proof.
+  intros idf p0 ps pp Hpv Hat. unfold prelude in *. rewrite (no_pv_params _ 0 Hpv) in *. simpl pv_code in *. simpl app at 2 in Hat.
+  set (n := length (p0 :: ps)) in *. assert (En : n = S (length ps)) by reflexivity.
+  uncons Hat A0. destruct (code_at_app _ _ _ _ Hat) as [Hm Hl]. rewrite map_length, seq_length in Hl. uncons Hl A1.
+  split; [exact A0|]. split; [|split].
+  - intros i Hi. apply Hm. assert (Hs : forall k s j, j < k -> nth_error (List.seq s k) j = Some (s + j)).
+    { induction k as [|k IH]; intros s j Hj; [lia|]. destruct j; simpl; [rewrite Nat.add_0_r; reflexivity|].
+      rewrite IH by lia. f_equal. lia. }
+    rewrite nth_error_map, (Hs n 0 i) by lia. reflexivity.
+  - rewrite <- En. exact A1.
+  - simpl. rewrite app_length, map_length, seq_length. simpl. lia.
+Qed.
+
+(* a call: of a user-defined function (opcall pc, with the closures of the arguments pushed before), or of a filter
+   parameter (load the closure; callpc).  The callee runs with one unit of fuel less *)
 Lemma impl_callf : forall f args, Impl (QCallF f args).
 Proof.
-  intros f args. impl_intro. destruct args as [|a0 args]; [|simpl in Hc; discriminate].
-  simpl in Hc. destruct (lookup_cf f (ce_env ce)) as [p|] eqn:Ef; [|discriminate].
-  inversion Hc; subst cq nv' sn'. clear Hc. uncons Hat A1.
-  pose proof HE as [Hv Hl].
-  destruct (envOKl_fun _ _ _ _ _ _ _ Hv Ef) as (body & cel' & rho' & pre & Hlf & (idf & nvb & cb & s0 & s1 & Hsc & Hcb & Hcode & Hclt) & Hv' & Epre).
-  cbn [Den.den1]. rewrite Hlf.
-  case_eq fu; [intros Efu|intros m Efu].
-  - (* no fuel: nothing is claimed *) cbn [call_of fst snd]. apply G_fuel.
-  - cbn [call_of].
-    assert (Hm : m < fu) by lia.
-    set (ceb := {| ce_env := cel'; ce_lbls := [] |}) in *.
-    assert (HEb : envOK sc ceb rho' vs n0 o).
-    { split; [eapply envOKl_lim; [exact Hv'|lia]|]. simpl. intros l0 y Hy. discriminate. }
-    assert (Hkb : forall i, kept sc ceb i -> kept sc ce i).
-    { intros i [(x & y & Hx & Hi)|(l0 & y & Hx & Hi)]; [|simpl in Hx; discriminate].
-      left. exists x, y. split; [rewrite Epre; apply suffix_In; exact Hx|exact Hi]. }
-    assert (HcbS : comp body ceb idf (S p) 0 s0 = Some (cb, nvb, s1)) by (replace (S p) with (p + 1) by lia; exact Hcb).
-    assert (HatS : code_at (S p) (cb ++ [Iret])).
+  intros f args. impl_intro. simpl in Hc.
+  destruct (lookup_cf f (length args) (ce_env ce)) as [[y|p nf|y]|] eqn:Ef; try discriminate.
+  - (* a defined function *)
+    pose proof HE as (Hv & Hl & Hgh).
+    destruct (envOKl_fun _ _ _ _ _ _ _ _ _ _ Hv Ef) as (ps & body & cel' & rho' & pre & _ & Hlps & Hlf &
+              (idf & nvb & cb & s0 & s1 & Hscp & Hcb & Hcode & Hclt & Hpv) & Hv' & Epre).
+    cbn [Den.den1]. rewrite Hlf. rewrite (bindps_nopv _ _ _ _ _ Hpv).
+    case_eq fu; [intros Efu|intros m Efu].
+    { (* no fuel: nothing is claimed *) cbn [call_of fst snd]. apply G_fuel. }
+    cbn [call_of]. assert (Hm : m < fu) by lia.
+    (* the callee's environment: its parameters, then the part of the caller's that starts at the function *)
+    set (Gc := kept sc {| ce_env := ce_env ce; ce_lbls := []; ce_ghost := ce_ghost ce |}).
+    set (ceF := {| ce_env := param_env idf ps ++ cel'; ce_lbls := []; ce_ghost := Gc |}).
+    set (pl := prelude idf ps) in *.
+    set (pcb := p + 1 + length pl) in *.
+    assert (HcbF : comp body ceF idf pcb (param_slots ps) s0 = Some (cb, nvb, s1)) by apply Hcb.
+    destruct (comp_mono _ _ _ _ _ _ _ _ _ HcbF) as [Mb _].
+    assert (HatP : code_at (S p) (pl ++ cb ++ [Iret])).
     { intros i x Hi. replace (S p + i) with (p + 1 + i) by lia. apply Hcode. exact Hi. }
-    eapply G_pre; [one st_callf; apply steps_refl|apply chg_refl|cl|].
+    destruct (code_at_app _ _ _ _ HatP) as [Hatpl Hat2]. destruct (code_at_app _ _ _ _ Hat2) as [Hatcb Hat3]. uncons Hat3 Aret.
+    replace (S p + length pl) with pcb in * by (unfold pcb; lia).
+    assert (Hkc : forall i, Gc i -> kept sc ce i).
+    { intros i [(x & y & Hx & Hi)|[(l0 & y & Hx & Hi)|Hg]]; simpl in *; [left; eauto|discriminate|right; right; exact Hg]. }
+    assert (HGlt : forall i, Gc i -> i < base + nv) by (intros i Hi; eapply kept_lt; [exact HE|apply Hkc; exact Hi]).
+    destruct args as [|a0 args'].
+    + (* no argument: opcall pc *)
+      destruct ps as [|p0 ps']; [|discriminate Hlps].
+      inversion Hc; subst cq nv' sn'. clear Hc. uncons Hat A1.
+      assert (Epcb : pcb = S p) by (unfold pcb, pl; simpl; lia). rewrite Epcb in *. simpl in HcbF.
+      eapply G_pre; [one st_callf; apply steps_refl|apply chg_refl|cl|].
+      subst c.
+      assert (HEb : envOK sc ceF rho' vs n0 o).
+      { split; [|split].
+        - simpl. eapply envOKl_ghost; [|eapply envOKl_lim; [exact Hv'|lia]]. intros i Hi. right. right. exact Hi.
+        - simpl. intros l0 y0 Hy. discriminate.
+        - simpl. intros i Hi. apply HGlt in Hi. lia. }
+      assert (Hkb : forall i, kept sc ceF i -> kept sc ce i).
+      { intros i [(x & y & Hx & Hi)|[(l0 & y & Hx & Hi)|Hg]]; simpl in *; [|discriminate|apply Hkc; exact Hg].
+        left. exists x, y. split; [|exact Hi]. rewrite Epre. destruct Hx as [Hx|Hx]; [left|right]; apply suffix_In; exact Hx. }
+      apply (G_call m body (IHfu m Hm body) sc cur base Hfr sc ceF p idf cb nvb s0 s1 Hclt Hscp HcbF Hat2
+               (ctx_of sc (pc + length [Icallf p]) st fk (base + nv) (base + nv) o ko K K0 ce n0 (ctr g))
+               rho' v P vs n o {| ctr := ctr g; creg := (Some pc, sc) |} pc); simpl; auto; try lia.
+      * intros vs' fin e HEn. destruct fin as [[e0|l0|]|]; simpl in *; auto.
+        destruct HEn as (x & k & id & Hk & _). discriminate.
+      * intros a b m0 x m' x' Hp C Hm0. eapply S1; [exact Hp| |exact Hm0]. eapply chg_mono; [|exact C]. simpl. intros; lia.
+      * eapply S1; [exact HP|apply chg_refl|cl].
+    + (* arguments: store v; the closures; load v; opcall pc *)
+      destruct (Nat.ltb_spec cur sn) as [Hlt|]; [|discriminate]. destruct (ce_lt ce sn) eqn:Hce; [|discriminate]. cbn [andb] in Hc.
+      match type of Hc with context [comp_args ?C ?l ?p ?s] => destruct (comp_args C l p s) as [[[cas pe] s2]|] eqn:Eas; [|discriminate] end.
+      inversion Hc; subst cq nv' sn'. clear Hc.
+      uncons Hat A0. destruct (code_at_app _ _ _ _ Hat) as [Hatas Hat4].
+      assert (HCm : forall a s p0 cb0 nvc s3, comp a (fun_env ce) s (p0 + 2) 0 (S s) = Some (cb0, nvc, s3) -> s <= s3).
+      { intros a s p0 cb0 nvc s3 Hca. apply comp_mono in Hca. lia. }
+      destruct (args_run _ HCm _ _ _ _ _ _ Eas Hatas) as (pcs & Hpl & Epe & Hsn2 & Hst & HFa).
+      assert (HFa' : Forall2 (fun a q => funOK code (S q) [] a (ce_env ce)) (a0 :: args') pcs).
+      { clear - HFa Hce. induction HFa as [|a q la lq (id & cb0 & nvc & s3 & Hid & Hq & Hca & Hatq) HFr IHF]; constructor; [|exact IHF].
+        exists id, nvc, cb0, (S id), s3. cbn [prelude param_env pv_env pf_env pv_params param_slots length app]. split; [exact Hq|]. split; [|split; [|split; [|reflexivity]]].
+        - intros G. rewrite <- Hca. replace (S q + 1 + 0) with (q + 2) by lia. apply comp_ghost; reflexivity.
+        - intros i x Hi. replace (S q + 1 + i) with (S (S q) + i) by lia. apply Hatq. exact Hi.
+        - apply ce_lt_nolbl. eapply ce_lt_mono; [exact Hce|exact Hid]. }
+      uncons Hat4 A1. uncons Hat4 A2.
+      set (clos := map (fun q => SPc (S q) sc) pcs) in *.
+      assert (Hcl : length clos = length ps) by (unfold clos; rewrite map_length; simpl in Hpl, Hlps; lia).
+      destruct ps as [|p0 ps']; [discriminate Hlps|].
+      destruct (prelude_at idf p0 ps' (S p) Hpv Hatpl) as (P0 & Pst & Pld & Plen). fold pl in Plen.
+      set (pcall := S (S pc + length cas)) in *.
+      assert (Epc : pc + length (Istore (cur, nv) :: cas ++ [Iload (cur, nv); Icallf p]) = S pcall).
+      { simpl. rewrite app_length. simpl. unfold pcall. lia. }
+      subst c. rewrite Epc.
+      set (c := ctx_of sc (S pcall) st fk (base + nv) (base + S nv) o ko K K0 ce n0 (ctr g)).
+      destruct (update_some vs (base + nv) (SV v)) as [vs1 U]; [lia|]. destruct (update_spec _ _ _ _ U) as (UL & UN & UO).
+      set (g' := {| ctr := ctr g; creg := (Some pcall, sc) |}).
+      eapply G_pre with (s1 := N sc p (SV v :: clos ++ st) fk vs1 n o g').
+      { eapply steps_step; [eapply st_store; [exact A0|apply Hcur|exact U]|]. eapply steps_trans; [apply Hst|]. rewrite Epe.
+        eapply steps_step; [eapply st_load; [exact A1|apply Hcur|exact UN]|]. one st_callf. apply steps_refl. }
+      { eapply chg_update; [exact U|]. simpl. lia. }
+      { unfold g'. cl. }
+      set (nvc := nvb).
+      set (pr := pcb + length cb) in *.
+      apply (G_enter sc cur base Hfr sc p idf nvb (length (p0 :: ps')) pr Hscp Aret c ceF P (SV v :: clos ++ st) vs1 n o g' pcall);
+        try (simpl; auto; lia).
+      { intros vs0 fin e HEn. destruct fin as [[e0|l0|]|]; simpl in *; auto. destruct HEn as (x & k & id & Hk & _). discriminate. }
+      set (sc' := Frame idf o pcall (ctr g') sc (outer_of sc idf sc) :: sc).
+      set (vs' := grow vs1 (o + nvb)).
+      set (g1 := {| ctr := S (ctr g'); creg := creg g' |}).
+      set (K' := fun i => g_keep c i \/ o <= i < o + nvb).
+      assert (Hfr' : frameOK sc' idf o) by (exists pcall, (ctr g'), sc, (outer_of sc idf sc), sc; reflexivity).
+      pose proof (frameOK_cur _ _ _ Hfr') as Hcur'.
+      assert (Hps : pushed sc idf sc') by (exists o, pcall, (ctr g'), sc, sc; reflexivity).
+      assert (Hl' : o + nvb <= length vs') by apply grow_len.
+      assert (Hslots : param_slots (p0 :: ps') = S (S (length ps'))).
+      { unfold param_slots. rewrite (no_pv_params _ 0 Hpv). simpl. lia. }
+      rewrite Hslots in *.
+      (* the prelude: store the input and the closures, load the input *)
+      destruct (update_some vs' (o + 0) (SV v)) as [vsA UA]; [lia|]. destruct (update_spec _ _ _ _ UA) as (UAL & UAN & UAO).
+      destruct (stores_run sc' idf o Hfr' clos 1 (S (S p)) st fk vsA n (o + nvb) g1) as (vsB & StB & LB & HB1 & HB2).
+      { intros i Hi. apply Pst. simpl in Hcl. lia. }
+      { simpl in Hcl. lia. }
+      assert (HvB : nth_error vsB (o + 0) = Some (SV v)) by (rewrite HB2 by lia; exact UAN).
+      assert (Hagree : forall a, a < o -> nth_error vsB a = nth_error vs1 a).
+      { intros a Ha. rewrite HB2 by lia. rewrite UAO by lia. unfold vs'. apply grow_nth. lia. }
+      assert (Hagree0 : forall a, a < base + nv -> nth_error vsB a = nth_error vs a).
+      { intros a Ha. rewrite Hagree by lia. apply UO. lia. }
+      assert (StP : steps (N sc' (S p) (SV v :: clos ++ st) fk vs' n (o + nvb) g1) (N sc' pcb (SV v :: st) fk vsB n (o + nvb) g1)).
+      { eapply steps_step; [eapply st_store; [exact P0|apply Hcur'|exact UA]|]. eapply steps_trans; [exact StB|].
+        replace (S (S p) + length clos) with (S (S p) + S (length ps')) by (simpl in Hcl; lia).
+        eapply steps_step; [eapply st_load; [exact Pld|apply Hcur'|exact HvB]|].
+        replace (S (S (S p) + S (length ps'))) with pcb by (unfold pcb; rewrite Plen; lia). apply steps_refl. }
+      eapply G_pre; [exact StP| |cl|].
+      { simpl. split; [lia|]. intros i Hi. rewrite HB2, UAO; auto; [lia| ].
+        destruct (Nat.lt_ge_cases i (o + 1)); [left; lia|]. destruct (Nat.lt_ge_cases i (o + 1 + length clos)); [|right; lia].
+        exfalso. apply Hi. simpl in Hcl. lia. }
+      (* the body, in the environment of the parameters *)
+      set (rhoF := pf_binds (p0 :: ps') (a0 :: args') rho ++ rho').
+      assert (HEF : envOK sc' ceF rhoF vsB n0 (o + S (S (length ps')))).
+      { split; [|split].
+        - unfold ceF. cbn [ce_env ce_ghost]. unfold param_env. rewrite (no_pv_params _ 0 Hpv). cbn [pv_env app].
+          refine (envOKl_params Gc sc' vsB (o + S (S (length ps'))) sc cur base (ce_env ce) rho (base + nv) idf o Hfr Hfr' ltac:(lia) _ _
+                    (p0 :: ps') (a0 :: args') pcs 0 cel' rho' Hpv Hlps HFa' _ _ _).
+          + cbn [ce_ghost]. eapply envOKl_same; [eapply envOKl_ghost; [|exact Hv]|..].
+            * intros i Hi. right. right. exact Hi.
+            * intros x y k Hin Hk. symmetry. apply Hagree0. exact (envOKl_kept_lt _ _ _ _ _ _ x y k Hv Hin Hk).
+            * intros k Hk. symmetry. apply Hagree0. apply HGlt. exact Hk.
+          + intros i Hi. split.
+            * destruct Hi as [(x & y & Hx & Hi)|[(l0 & y & Hx & Hi)|Hg]]; simpl in *; [left; eauto|discriminate|exact Hg].
+            * apply HGlt. destruct Hi as [(x & y & Hx & Hi)|[(l0 & y & Hx & Hi)|Hg]]; simpl in *; [left; eauto|discriminate|exact Hg].
+          + intros k q Hq. replace (o + S (0 + k)) with (o + 1 + k) by lia. apply HB1. unfold clos. rewrite nth_error_map, Hq. reflexivity.
+          + simpl. lia.
+          + eapply envOKl_lim; [|instantiate (1 := base + nv); lia].
+            eapply envOKl_pushed; [exact Hps| |eapply envOKl_ghost; [|exact Hv']|].
+            * exact Hagree0.
+            * intros i Hi. right. right. exact Hi.
+            * intros x y Hin. pose proof (ce_lt_var {| ce_env := cel'; ce_lbls := []; ce_ghost := fun _ => False |} idf x y Hclt Hin). lia.
+        - simpl. intros l0 y0 Hy. discriminate.
+        - simpl. intros i Hi. apply HGlt in Hi. lia. }
+      pose proof (IHfu m Hm body sc' idf o Hfr' ceF pcb (S (S (length ps'))) s0 cb nvb s1 HcbF Hatcb rhoF v st fk vsB n n0 (o + nvb) (o + nvb) g1
+                    K' K0 P HEF Hn (le_n _) (le_n _) ltac:(lia)) as HB. cbv zeta in HB.
+      refine (G_sub nt code (ctx_of sc' (pcb + length cb) st fk (o + S (S (length ps'))) (o + nvb) (o + nvb) (o + nvb) K' K0 ceF n0 (ctr g1))
+                (ctx_of sc' pr st fk (o + 0) (o + nvb) (o + nvb) (o + nvb) K' K0 ceF n0 (ctr g1)) _ _
+                eq_refl eq_refl eq_refl eq_refl _ (fun _ _ _ H => H) (fun _ _ H => H) (le_n _) (le_n _) (le_n _) _ _ _ (HB _ _ _ _ _)).
+      { simpl. intros; lia. }
+      { intros s3. apply Tend_sub; auto. simpl. intros; lia. }
+      { intros i Hi. unfold K'. right. lia. }
+      { intros i Hi. unfold K'.
+        destruct Hi as [(x & y & Hx & Hi)|[(l0 & y & Hx & Hi)|Hg]]; simpl in *; [|discriminate|left; apply HK2, Hkc; exact Hg].
+        unfold param_env in Hx. rewrite (no_pv_params _ 0 Hpv) in Hx. cbn [pv_env app] in Hx.
+        assert (Hy : (exists j, y = (idf, S j) /\ j < S (length ps')) \/ ((In (x, CV y) cel' \/ In (x, CP y) cel') /\ fst y < idf)).
+        { destruct Hx as [Hx|Hx]; apply in_app_or in Hx; destruct Hx as [Hx|Hx].
+          - exfalso. exact (proj1 (pf_env_In idf (p0 :: ps') 0 x y) Hx).
+          - right. split; [auto|]. exact (ce_lt_var {| ce_env := cel'; ce_lbls := []; ce_ghost := fun _ => False |} idf x y Hclt (or_introl Hx)).
+          - left. destruct (proj2 (pf_env_In idf (p0 :: ps') 0 x y) Hx) as (j & -> & Hj). exists j. simpl in Hj. split; [auto|lia].
+          - right. split; [auto|]. exact (ce_lt_var {| ce_env := cel'; ce_lbls := []; ce_ghost := fun _ => False |} idf x y Hclt (or_intror Hx)). }
+        destruct Hy as [(j & -> & Hj)|[Hx' Hlt']].
+        - rewrite Hcur' in Hi. inversion Hi; subst i. right. lia.
+        - rewrite (index_of_pushed _ _ _ _ Hps) in Hi by lia. left. apply HK2. left. exists x, y. split; [|exact Hi].
+          rewrite Epre. destruct Hx' as [Hx'|Hx']; [left|right]; apply suffix_In; exact Hx'. }
+      { intros i Hi. unfold K'. left. apply HK0. exact Hi. }
+      { split.
+        - intros a b m0 x m' x' Hp C Hm0. eapply S1; [exact Hp| |exact Hm0]. eapply chg_mono; [|exact C]. simpl; intros; lia.
+        - intros a b m0 x m' x' Hp C Hm0. eapply S2; [exact Hp|exact C|exact Hm0]. }
+      { eapply S1; [exact HP| |unfold g1, g'; cl]. simpl. split; [lia|]. intros i Hi.
+        assert (Hi1 : i <> base + nv /\ i < o) by lia.
+        rewrite Hagree by lia. symmetry. apply UO. lia. }
+  - (* a filter parameter: load the closure; callpc *)
+    inversion Hc; subst cq nv' sn'. clear Hc. uncons Hat A0. uncons Hat A1.
+    pose proof HE as (Hv & Hl & Hgh).
+    assert (Ea0 : length args = 0).
+    { destruct args as [|a0 args']; [reflexivity|]. exfalso. clear - Ef. simpl length in Ef.
+      induction (ce_env ce) as [|[z [k|q n|k]] r IH]; simpl in Ef; try discriminate; auto.
+      - destruct (N.eqb f z && Nat.eqb n (S (length args'))); [discriminate|auto].
+      - rewrite andb_false_r in Ef. auto. }
+    rewrite Ea0 in Ef.
+    destruct (envOKl_par _ _ _ _ _ _ _ _ Hv Ef) as (a & rho_a & rho'' & addr & pa & idx & cel_a & cur_a & base_a & lim_a & Ga & Hlf & Hia & Hal & Hna &
+              (ida & nva & cba & s0a & s1a & Hsca & Hcba & Hcodea & Hclta & _) & Htop & Hla & Hva & Hka).
+    cbn [Den.den1]. rewrite Ea0, Hlf.
+    case_eq fu; [intros Efu|intros m Efu].
+    { cbn [call_of fst snd]. apply G_fuel. }
+    cbn [call_of]. assert (Hm : m < fu) by lia.
+    set (cea := {| ce_env := cel_a; ce_lbls := []; ce_ghost := Ga |}).
+    assert (Hcba' : comp a cea ida (S pa) 0 s0a = Some (cba, nva, s1a)).
+    { specialize (Hcba Ga). simpl in Hcba. replace (pa + 1 + 0) with (S pa) in Hcba by lia. exact Hcba. }
+    assert (Hata : code_at (S pa) (cba ++ [Iret])).
+    { intros i x Hi. replace (S pa + i) with (pa + 1 + i) by lia. apply Hcodea. exact Hi. }
+    eapply G_pre; [eapply steps_step; [eapply st_load; [exact A0|exact Hia|exact Hna]|]; one st_callpc; apply steps_refl|apply chg_refl|cl|].
     subst c.
-    apply (G_call m body (IHfu m Hm body) sc cur base Hfr ceb p idf cb nvb s0 s1 Hclt Hsc HcbS HatS
-             (ctx_of sc (pc + length [Icallf p]) st fk (base + nv) (base + nv) o ko K K0 ce n0 (ctr g))
-             rho' v P vs n o {| ctr := ctr g; creg := (Some pc, sc) |} pc); simpl; auto; try lia.
+    apply (G_call m a (IHfu m Hm a) sc cur base Hfr idx cea pa ida cba nva s0a s1a Hclta Hsca Hcba' Hata
+             (ctx_of sc (pc + length [Iload y; Icallpc]) st fk (base + nv) (base + nv) o ko K K0 ce n0 (ctr g))
+             rho_a v P vs n o {| ctr := ctr g; creg := (Some (S pc), idx) |} (S pc)); simpl; auto; try lia.
     + intros vs' fin e HEn. destruct fin as [[e0|l0|]|]; simpl in *; auto.
       destruct HEn as (x & k & id & Hk & _). discriminate.
-    + intros a b m0 x m' x' Hp C Hm0. eapply S1; [exact Hp| |exact Hm0]. eapply chg_mono; [|exact C]. simpl. intros; lia.
+    + intros i Hi. apply HK2. right. right. apply Hka. exact Hi.
+    + split; [|split].
+      * simpl. eapply envOKl_lim; [exact Hva|lia].
+      * simpl. intros l0 y0 Hy. discriminate.
+      * simpl. intros i Hi. assert (i < lim_a) by (apply Hka; right; right; exact Hi). lia.
+    + intros a1 b m0 x m' x' Hp C Hm0. eapply S1; [exact Hp| |exact Hm0]. eapply chg_mono; [|exact C]. simpl. intros; lia.
     + eapply S1; [exact HP|apply chg_refl|cl].
 Qed.
+
 
 (* the argument is a closure: jump over it; at the call site load v, push (entry pc, current scope index), callpc *)
 Lemma G_arg_closure : forall q, Impl q -> forall sc cur base, frameOK sc cur base ->
